@@ -51,6 +51,14 @@ BPlusTree_init(BPlusTree *self, PyObject *args, PyObject *kwds) {
         return -1;
     }
     
+    if (capacity > UINT16_MAX) {
+        /* the node header stores capacity and key counts in 16 bits */
+        PyErr_Format(PyExc_ValueError,
+                     "capacity must be at most %d, got %d",
+                     UINT16_MAX, capacity);
+        return -1;
+    }
+    
     self->capacity = capacity;
     self->min_keys = capacity / 2;
     
